@@ -2,6 +2,7 @@ import Mathlib.Data.Matrix.Mul
 import Mathlib.Data.Fintype.BigOperators
 import Mathlib.LinearAlgebra.Matrix.Block
 import Mathlib.Analysis.Real.Sqrt
+import Mathlib.Algebra.Order.Field.Basic
 import FastorModel.Proofs.QRInv
 import FastorModel.Proofs.QRPivot
 import FastorModel.Proofs.QRFamily
@@ -290,5 +291,47 @@ example : Fam 2 2 exA
     intro k j hk hj
     have : (k = 0 ∨ k = 1) ∧ (j = 0 ∨ j = 1) := by omega
     rcases this with ⟨rfl | rfl, rfl | rfl⟩ <;> norm_num [Mat.ofFn, exA, sum_range_succ]
+
+/-! ### the diagonal of R, uniqueness on the family -/
+
+/-- row `i` of `R` is final once iteration `i` is over: later iterations write other rows only -/
+theorem R_row_frozen (sqrt : K → K) (M N : Nat) (A0 Qin : Mat K) (i t : Nat) (h : i < t) (j : Nat) :
+    (stateAt sqrt M N A0 Qin t).R i j = (stateAt sqrt M N A0 Qin (i + 1)).R i j := by
+  induction t with
+  | zero => omega
+  | succ n ih =>
+    by_cases hn : i = n
+    · subst hn; rfl
+    · rw [stateAt_succ, outerStep_R, if_neg (by omega), set2_get, if_neg (by omega)]
+      exact ih (by omega)
+
+/-- the diagonal of the returned `R` holds the values returned by `sqrt` -/
+theorem qr_R_diag_eq (sqrt : K → K) (M N : Nat) (A0 Qin : Mat K) (i : Nat) (hi : i < N) :
+    (qrMgsr sqrt M N A0 Qin).R i i = sqrt (normArg sqrt M N A0 Qin i) := by
+  unfold qrMgsr
+  rw [R_row_frozen sqrt M N A0 Qin i N hi, qr_R_diag]
+
+/-- **R has a positive diagonal** when `sqrt` returns non-negative exact roots (ordered field) -/
+theorem qr_R_diag_pos [LinearOrder K] [IsStrictOrderedRing K] (sqrt : K → K) (M N : Nat) (A0 Qin : Mat K)
+    (hs : SqrtExact sqrt M N A0 Qin) (hnn : ∀ i, i < N → 0 ≤ sqrt (normArg sqrt M N A0 Qin i)) (i : Nat) (hi : i < N) :
+    0 < (qrMgsr sqrt M N A0 Qin).R i i := by
+  rw [qr_R_diag_eq sqrt M N A0 Qin i hi]
+  exact lt_of_le_of_ne (hnn i hi) (Ne.symm (hs i hi).2)
+
+/-- over the reals: `R i i > 0` for an input of full column rank -/
+theorem qr_R_diag_pos_real (M N : Nat) (A0 Qin : Mat ℝ)
+    (hpos : ∀ i, i < N → normArg Real.sqrt M N A0 Qin i ≠ 0) (i : Nat) (hi : i < N) :
+    0 < (qrMgsr Real.sqrt M N A0 Qin).R i i :=
+  qr_R_diag_pos Real.sqrt M N A0 Qin (sqrtExact_real M N A0 Qin hpos) (fun _ _ => Real.sqrt_nonneg _) i hi
+
+/-- **uniqueness on the family**: two factorisations `A0 = Q0*R0 = Q1*R1` of the family kind (orthonormal columns,
+    upper triangular, diagonal fixed by `sqrt`) coincide on the index range — both are what the dispatcher returns -/
+theorem qr_unique_on_family (sqrt : K → K) (M N : Nat) (A0 Q0 R0 Q1 R1 : Mat K)
+    (h0 : Fam M N A0 Q0 R0 sqrt) (h1 : Fam M N A0 Q1 R1 sqrt) :
+    (∀ k p, k < M → p < N → Q0 k p = Q1 k p) ∧ (∀ p j, p < N → j < N → R0 p j = R1 p j) := by
+  obtain ⟨_, _, hq0, hr0⟩ := qr_on_family sqrt M N A0 A0 Q0 R0 h0
+  obtain ⟨_, _, hq1, hr1⟩ := qr_on_family sqrt M N A0 A0 Q1 R1 h1
+  exact ⟨fun k p hk hp => (hq0 k p hk hp).symm.trans (hq1 k p hk hp),
+    fun p j hp hj => (hr0 p j hp hj).symm.trans (hr1 p j hp hj)⟩
 
 end Fastor.C13
